@@ -76,6 +76,9 @@ func C16(ctx *core.Ctx) int {
 	for _, t := range repoSamples(ctx) {
 		texts = append(texts, c11Input{t.Name, dsl.Render(t.Toks, dsl.Pretty)})
 	}
+	for _, t := range specialTexts() {
+		texts = append(texts, c11Input{t.Name, t.Raw})
+	}
 	texts = append(texts, c11Input{"comment-only", "// c\n"}, c11Input{"with-comments", "// head\npacket P { // t\n    u16 a, // x\n}\n"},
 		c11Input{"leading-dash", "-- not dsl"}, c11Input{"equals-sign", "options { A = 1 }"}, c11Input{"utf8", "packet P {\n    u16 a `消息`,\n}"},
 		c11Input{"trailing-space", "packet P {\n}\n   \n"}, c11Input{"crlf", "packet P {\r\n    u16 a,\r\n}\r\n"})
@@ -272,6 +275,15 @@ func c16Compile(ctx *core.Ctx, bin string, progs []*dsl.Program) (int, int) {
 		defer os.RemoveAll(dir)
 		file := filepath.Join(dir, "in.dsl")
 		os.WriteFile(file, []byte(text), 0o644)
+		// regenerating into directories that already hold (longer) files of the same names must leave exactly the new bytes
+		prefill := j.mask == 63 || j.mask == 21
+		if prefill {
+			for n, w := range want {
+				p := filepath.Join(dir, n)
+				os.MkdirAll(filepath.Dir(p), 0o755)
+				os.WriteFile(p, []byte(w+"\n// stale tail of an earlier, longer generation\n"+strings.Repeat("x", 300)), 0o644)
+			}
+		}
 		args := []string{}
 		if !j.bare {
 			args = append(args, "compile")
@@ -335,7 +347,11 @@ func c16Compile(ctx *core.Ctx, bin string, progs []*dsl.Program) (int, int) {
 			case !okw:
 				ctx.Report(sp+"|file written that the generators did not produce", fmt.Sprintf("%s %v: extra %s", j.p.Name, args, n), rep)
 			case w != g:
-				ctx.Report(sp+"|file content differs from the generator's bytes ("+lang+")", fmt.Sprintf("%s %v: %s differs", j.p.Name, args, n), rep)
+				how := ""
+				if prefill && strings.HasPrefix(g, w) {
+					how = ": an existing longer file is not truncated"
+				}
+				ctx.Report(sp+"|file content differs from the generator's bytes ("+lang+")"+how, fmt.Sprintf("%s %v: %s differs", j.p.Name, args, n), rep)
 			}
 		}
 		if useStrace {
